@@ -48,7 +48,8 @@ theorem C20_model_is_standard (rgb xyz : List Float) :
     simp [srgbToLinearWith, srgbToLinearG, litsF, srgbToLinearStd, fwdLowWhenBelow, srgbScaleF, srgbAF, srgbGammaF,
       srgbSlopeF, srgbKneeF]
   have h2 : ∀ v, linearToSrgbWith invLowWhenBelow v = linearToSrgbStd v := fun v => by
-    simp [linearToSrgbWith, linearToSrgbStd, invLowWhenBelow, srgbAInvF, srgbSlopeInvF, srgbKneeInvF]
+    simp [linearToSrgbWith, linearToSrgbG, litsF, linearToSrgbStd, invLowWhenBelow, srgbAInvF, srgbSlopeInvF,
+      srgbKneeInvF]
   have h3 : ∀ t, labFWith labSmallWhenBelow labKneeExp t = labFStd t := fun t => by
     simp [labFWith, labFG, litsF, labFStd, labSmallWhenBelow, labKneeExp, labDeltaNumF, labDeltaDenF]
   have e1 : ∀ l, rgb2xyz l = rgb2xyzSpec l := fun l => by
@@ -57,7 +58,7 @@ theorem C20_model_is_standard (rgb xyz : List Float) :
     rcases l with _ | ⟨x, _ | ⟨y, _ | ⟨z, _ | ⟨w, t⟩⟩⟩⟩ <;>
       simp [xyz2lab, xyz2labWith, xyz2labG, litsF, xyz2labSpec, labWhiteF, funext h3]
   refine ⟨e1 rgb, ?_, ?_⟩
-  · simp only [xyz2rgb, xyz2rgbWith, xyz2rgbSpec, funext h2]; rfl
+  · simp only [xyz2rgb, xyz2rgbWith, xyz2rgbG, xyz2rgbSpec, funext h2]; rfl
   · simp only [rgb2lab, rgb2labSpec, e1, e3]
 
 /-- **C20-T1 (white and black).** In exact arithmetic the matrix maps linear white `(1,1,1)` to the
